@@ -355,7 +355,16 @@ def metaclass_setattr_contract():
         out = []
         if isinstance(oc, Raise) and oc.origin == "_initialize_parameter":
             # the inheritance / re-validation step rejected the new Parameter (class-creation-like
-            # failure, property C11): what such a failed assignment leaves behind is not claimed here
+            # failure, property C11): the refused Parameter does not stay on the class — the attribute is
+            # deleted again or what was there before is written back — and the caches are cleared afterwards
+            d = [i for i, k in enumerate(kinds) if k == "classdict-delete"]
+            first = w[0] if w else None
+            undo = [j for j in d if first is not None and j > first and log[j][2] is log[first][2]] + \
+                   [j for j in w[1:] if log[j][2] is log[first][2] and log[j][3] is not log[first][3]]
+            out.append(("C11/a Parameter object refused while its inherited attributes are merged is taken off the class again",
+                        z3.BoolVal(first is not None and len(undo) == 1)))
+            out.append(("C11/… and the cache is cleared after that",
+                        z3.BoolVal(bool(undo) and any(j > undo[-1] for j in c))))
             return out
         # every class-dictionary write of a Parameter object is followed by a cache clear
         for i in w:
